@@ -1493,6 +1493,10 @@ class Container:
         if round(required_quantity, config.internal_precision) < 0:
             raise ValueError("Container already holds more than the requested quantity.")
         required_quantity = max(required_quantity, 0)
+        if required_quantity > 0 and Unit.convert_from(solvent, 1, quantity_unit,
+                                                        'U' if solvent.is_enzyme() else config.moles_storage_unit) == 0:
+            # e.g. an enzyme carries no moles: no amount of it reaches a target given in moles
+            raise ValueError(f"{solvent.name} cannot be measured in {quantity_unit}.")
         result = self._add(solvent, f"{required_quantity} {quantity_unit}")
         required_volume = Unit.convert(solvent, f"{required_quantity} {quantity_unit}", 'L')
         required_volume, unit = Unit.get_human_readable_unit(required_volume, 'L')
